@@ -2,6 +2,7 @@ import TV.Model.Middleware
 import TV.Model.ServerLifecycle
 import TV.Proofs.ServerMw
 import TV.Proofs.ServerLcFinal
+import TV.Proofs.StopRetry
 /-! Server — proof obligations, re-exported verbatim by TV/Properties/C17.lean and C18.lean. -/
 namespace TV.Server
 namespace Proofs
@@ -164,6 +165,18 @@ open TV.ServerLifecycle in
 theorem C18_start_signals_all :
     ∀ (n : Nat) (s : St), Reach n s → (s.caller = .startReturned ∨ (∃ k e, s.caller = .stopping k e) ∨ (∃ e, s.caller = .waitingStopWg e) ∨ (∃ e, s.caller = .stopReturned e)) →
     s.provs.length = n ∧ ∀ p ∈ s.provs, p.pc ≠ .notStarted := fun _ _ hr hc => LcProofs.start_signals_all hr hc
+
+theorem C18_retried_stop_waits :
+    ∀ (n : Nat) (f : Nat → Nat) (s : StopRetry.St), StopRetry.Reach n f s →
+    ∀ r ∈ s.returned, r.1 = true → r.2.1 = false ∧ r.2.2 = 0 := StopRetry.retried_stop_waits
+
+theorem C18_retried_stop_progress :
+    ∀ (n : Nat) (f : Nat → Nat) (s : StopRetry.St), StopRetry.Reach n f s → ∀ (k : Nat) (a e : Bool), s.stopping = some (k, a, e) →
+    (StopRetry.step? s .provStop).isSome = true ∨
+    (a = true ∧ k < s.n ∧ 0 < s.inflight k ∧ (StopRetry.step? s (.finishReq k)).isSome = true) := StopRetry.retried_stop_progress
+
+theorem C18_expired_stop_cuts_nothing :
+    ∀ (s s' : StopRetry.St), StopRetry.step? s .provStop = some s' → s'.inflight = s.inflight := StopRetry.expired_stop_cuts_nothing
 
 end Proofs
 end TV.Server
